@@ -29,11 +29,16 @@ Definition site_is_audited_in (declared : list string) (tbl : list (site * site_
   end.
 
 (* ---------------------------------------------------------------- the runtime observation *)
-(* one run of `python -m graphtage --no-status <flags> a.json b.json` in a fresh process *)
+(* one run of `python -m graphtage --no-status <flags> a.json b.json`: in a fresh process (ro_warm = 0), or as call
+   number ro_pos of graphtage.__main__.main inside ONE long-lived process that executes a whole batch of cases in
+   the order ro_warm (1: forward, 2: reversed, 3: shuffled, 4: replay of a stored sequence), i.e. after ro_pos other
+   diffs in the same process ("warm" run) *)
 Record run_obs := {
   ro_seed : Z;         (* PYTHONHASHSEED *)
   ro_alloc : Z;        (* 0: plain; n > 0: n dummy objects of assorted sizes allocated (and partly freed) before graphtage is
                           imported; -1: PYTHONMALLOC=malloc *)
+  ro_warm : Z;         (* 0: fresh process; k > 0: warm process, batch order k *)
+  ro_pos : Z;          (* number of cases the warm process executed before this one *)
   ro_status : Z;       (* exit status (99: a traceback on stderr) *)
   ro_len : Z;          (* number of bytes on stdout *)
   ro_digest : Z        (* SHA-256 of stdout, as a number *)
@@ -57,8 +62,9 @@ Definition all_same {A} (eqb : A -> A -> bool) (l : list A) : bool :=
 
 Definition pair_eqb (p q : Z * Z) : bool := (fst p =? fst q) && (snd p =? snd q).
 
-(* byte-identical output and the same exit status in every process; identical renderings when repeated in one
-   process; no input tree altered *)
+(* byte-identical output and the same exit status in every process - fresh under every seed / allocation history, and
+   at every position of every order of a warm process (the first run of a case is a fresh one, so every warm run is
+   compared with the fresh result); identical renderings when repeated in one process; no input tree altered *)
 Definition outputs_equal (c : det_case) : bool := all_same same_output (dc_runs c).
 Definition repeats_equal (c : det_case) : bool := all_same pair_eqb (dc_inproc c).
 Definition inputs_unchanged (c : det_case) : bool := forallb (fun s => sn_before s =? sn_after s) (dc_snaps c).
@@ -73,8 +79,8 @@ Definition bad_cases {A} (f : A -> bool) (cases : list (nat * A)) : list nat :=
   map fst (filter (fun ic => negb (f (snd ic))) cases).
 
 (* which runs differ from the first one (for the replay: the two seeds that differ) *)
-Definition differing_runs (c : det_case) : list (Z * Z) :=
+Definition differing_runs (c : det_case) : list (Z * Z * Z * Z) :=
   match dc_runs c with
   | [] => []
-  | r :: l => map (fun r' => (ro_seed r', ro_alloc r')) (filter (fun r' => negb (same_output r r')) l)
+  | r :: l => map (fun r' => (ro_seed r', ro_alloc r', ro_warm r', ro_pos r')) (filter (fun r' => negb (same_output r r')) l)
   end.
